@@ -196,7 +196,9 @@ def run_case(case, ctx):
         clog = open(os.path.join(d, "clients.err"), "wb")
         nclients = rng.choice([1, 2, 2, 3])
         clients = [Client(wfd, tracker.pid, clog) for _ in range(nclients)]
-        files = [os.path.join(d, f"res{i}.bin") for i in range(rng.randint(1, 4))]
+        # names with separator characters (':' splits the request line), spaces and a long one
+        styles = ["res{i}.bin", "res{i}.bin", "re:s:{i}.bin", "res {i} x.bin", "res{i}:", "r" * 180 + "{i}.bin"]
+        files = [os.path.join(d, rng.choice(styles).format(i=i)) for i in range(rng.randint(1, 4))]
         folders = [os.path.join(d, f"dir{i}") for i in range(rng.randint(0, 2))]
         inside = {}
         for fo in list(folders):
